@@ -272,7 +272,12 @@ class UnionConverter(Converter[t.Any]):
                 # match may fail in other ways (e.g. comparing a numpy array with a literal)
                 pass
             else:
-                return conv.into_data(val)
+                try:
+                    return conv.into_data(val)
+                except Exception:
+                    # the member accepted `val` as *data* (e.g. a mapping which also fits a dataclass member),
+                    # but `val` isn't one of its values. Go on to the next member
+                    pass
         # default to regular conversion
         return into_data(val)
 
